@@ -1,18 +1,22 @@
 (* C06 — Slicing a polyline by a plane keeps exactly the run in front, or refuses.
    Only statements here; each is closed by `exact <lemma>` from proofs/P_polyline_slice.v.
 
-   Vocabulary (proofs/P_polyline_slice.v):
-     in_front pl v            the vertex's sign np.sign(signed distance) is 1, i.e. 0 < signed distance
+   The specification vocabulary is model-level: coq/model/M_polyline_slice_spec.v (definitions only)
+     in_front pl v            the vertex's sign np.sign(signed distance) is 1
      open_split sg vs pre run post      vs = pre ++ run ++ post, run <> [], every vertex of run in front, none of pre ++ post
      cyclic_split sg vs run rest        some rotation of vs is run ++ rest, both non-empty, run in front, rest not
-     crossing pl a b          a + t (b - a) with t = ((ref - a).n) / ((b - a).n), the point the code computes from a towards b
-     spec_points pl pre run post        [entry extension] ++ run ++ [exit extension]  (DESIGN Appendix A: enter / exit)
+     crossing pl a b          a + t (b - a) with t = d_a / (d_a - d_b), d = signed distance (crossing_t)
+     opposite pl a b          a and b strictly on opposite sides
+     spec_points pl pre run post        [entry extension] ++ run ++ [exit extension]  (enter / leave)
      closed_spec_points pl run rest     the same with the neighbours taken cyclically: before = last rest, after = first rest
-   The model of the closed case is the code with fixes/C06-closed-slice.diff applied; the two defects of the
-   unchanged code are stated at the end on `sliced_by_plane_unfixed`. *)
+   The model (coq/model/M_polyline_slice.v) is the code with fixes/C06-closed-slice.diff and
+   fixes/C06-crossing-from-signed-distances.diff.  The clause "the result is an open polyline" is not a statement about
+   real arithmetic: the model returns the rows only; the flag is compared by the correspondence check and the oracle.
+   Binary64: the theorems are over the reals.  That a vertex within rounding error of the plane still gives finite
+   rows is checked on sampled inputs (near_plane / near_oblique streams), not proved. *)
 From Coq Require Import ZArith Reals List Bool Lra.
 From PW Require Import Num NumR Vec NpList Result.
-From PW.model Require Import M_plane M_polyline_base M_polyline_slice.
+From PW.model Require Import M_plane M_polyline_base M_polyline_slice M_polyline_slice_spec.
 From PW.proofs Require Import P_plane P_polyline_slice.
 Import ListNotations.
 Local Open Scope R_scope.
@@ -21,25 +25,12 @@ Local Open Scope R_scope.
 Theorem C06_in_front_iff : forall pl v, in_front pl v <-> 0 < plane_sd ROps pl v.
 Proof. exact in_front_iff. Qed.
 
-(* the extension rows spelled out: nothing at a path end, the neighbour when it is on the plane, else the crossing *)
-Theorem C06_extension_points : forall pl before first lastv after,
-  enter (plane_sign ROps pl) (fun v => v) (crossing pl) before first =
-    match before, first with
-    | Some v, Some f => if (plane_sign ROps pl v =? 0)%Z then [v] else [crossing pl v f]
-    | _, _ => []
-    end /\
-  leave (plane_sign ROps pl) (fun v => v) (crossing pl) lastv after =
-    match lastv, after with
-    | Some l, Some v => if (plane_sign ROps pl v =? 0)%Z then [v] else [crossing pl l v]
-    | _, _ => []
-    end.
-Proof. intros. split; reflexivity. Qed.
-
-(* segment/plane crossing: for endpoints strictly on opposite sides the parameter is strictly inside (0,1) ... *)
+(* the crossing point (computed from the two signed distances): for endpoints strictly on opposite sides the
+   parameter is strictly inside (0,1) ... *)
 Theorem C06_crossing_param_in_unit_interval : forall pl a b,
   opposite pl a b -> 0 < crossing_t pl a b < 1.
 Proof. exact crossing_param_in_unit_interval. Qed.
-(* ... the code's out-of-range rejection does not fire, the row is the crossing point ... *)
+(* ... the row the code computes is that point (the zero-denominator branch cannot be taken) ... *)
 Theorem C06_crossing_row_is_point : forall pl a b,
   opposite pl a b -> crossing_row ROps pl a b = XPt (crossing pl a b).
 Proof. exact crossing_row_is_point. Qed.
@@ -47,6 +38,12 @@ Proof. exact crossing_row_is_point. Qed.
 Theorem C06_crossing_on_plane : forall pl a b,
   plane_sd ROps pl a <> plane_sd ROps pl b -> plane_sd ROps pl (crossing pl a b) = 0.
 Proof. exact crossing_on_plane. Qed.
+
+(* ... and it is the point intersect_segment_with_plane returns for the same segment (the mechanism the code used
+   before fixes/C06-crossing-from-signed-distances.diff; over the reals the two agree) *)
+Theorem C06_crossing_agrees_with_intersect_segment : forall pl a b, opposite pl a b ->
+  intersect_segment_with_plane ROps a (vsub ROps b a) (pref pl) (pnormal pl) = XPt (crossing pl a b).
+Proof. exact crossing_is_segment_plane_intersection. Qed.
 
 (* open polylines of every length (and closed ones with at most one vertex, which take the same code path):
    exactly the run in front with its extensions, ValueError in every other situation
@@ -92,19 +89,20 @@ Theorem C06_only_value_error : forall pl p e,
   sliced_by_plane ROps pl p = Raise e -> e = ValueError.
 Proof. exact only_value_error. Qed.
 
-(* ---- the unchanged code (pinned commit, without fixes/C06-closed-slice.diff) --------------------------- *)
-(* closed polyline with every vertex in front: IndexError where the property demands ValueError *)
-Theorem C06_unfixed_closed_all_front_refuted :
-  sliced_by_plane_unfixed ROps xplane (MkPolyline [V3 1 0 0; V3 1 1 0] true) = Raise IndexError.
-Proof. exact unfixed_all_front_raises_index_error. Qed.
-(* closed polyline with exactly one vertex not in front, signs (-1,1,1): three rows, the exit point is missing *)
-Theorem C06_unfixed_closed_one_nonfront_refuted :
-  let vs := [V3 (-1) 0 0; V3 1 1 0; V3 1 2 0] in
-  let run := [V3 1 1 0; V3 1 2 0] in let rest := [V3 (-1) 0 0] in
-  cyclic_split (plane_sign ROps xplane) vs run rest /\
-  (exists rows, sliced_by_plane_unfixed ROps xplane (MkPolyline vs true) = Ok rows /\ length rows = 3%nat) /\
-  length (closed_spec_points xplane run rest) = 4%nat.
-Proof. exact unfixed_one_nonfront_loses_exit. Qed.
+(* ---- definitional: pins the shape of the specification; the content is carried by the theorems above ---- *)
+(* the extension rows spelled out: nothing at a path end, the neighbour when it is on the plane, else the crossing *)
+Theorem C06_extension_points : forall pl before first lastv after,
+  enter (plane_sign ROps pl) (fun v => v) (crossing pl) before first =
+    match before, first with
+    | Some v, Some f => if (plane_sign ROps pl v =? 0)%Z then [v] else [crossing pl v f]
+    | _, _ => []
+    end /\
+  leave (plane_sign ROps pl) (fun v => v) (crossing pl) lastv after =
+    match lastv, after with
+    | Some l, Some v => if (plane_sign ROps pl v =? 0)%Z then [v] else [crossing pl l v]
+    | _, _ => []
+    end.
+Proof. intros. split; reflexivity. Qed.
 
 (* non-vacuity: an open polyline with a single run in front and a crossing at each end *)
 Example C06_split_inhabited :
@@ -115,8 +113,21 @@ Proof.
   constructor; [reflexivity|discriminate| |]; repeat constructor; unfold front; rewrite ?Sp, ?Sn; congruence.
 Qed.
 
+(* non-vacuity: a closed polyline whose run wraps around the last vertex; two points strictly on opposite sides *)
+Example C06_cyclic_split_inhabited :
+  cyclic_split (plane_sign ROps xplane) [V3 1 0 0; V3 (-1) 1 0; V3 1 2 0] [V3 1 2 0; V3 1 0 0] [V3 (-1) 1 0].
+Proof.
+  assert (Sp : forall y, plane_sign ROps xplane (V3 1 y 0) = 1%Z) by (intros; apply sign_pos; unfold xplane; punf; lra).
+  assert (Sn : plane_sign ROps xplane (V3 (-1) 1 0) = (-1)%Z) by (apply sign_neg; unfold xplane; punf; lra).
+  split; [exists [V3 1 0 0; V3 (-1) 1 0], [V3 1 2 0]; split; reflexivity|].
+  split; [discriminate|]. split; [discriminate|].
+  split; repeat constructor; unfold front; rewrite ?Sp, ?Sn; congruence.
+Qed.
+Example C06_opposite_inhabited : opposite xplane (V3 (-1) 0 0) (V3 2 1 0).
+Proof. left. unfold xplane. split; punf; lra. Qed.
+
 Definition C06_all := (C06_in_front_iff, C06_extension_points, C06_crossing_param_in_unit_interval,
-  C06_crossing_row_is_point, C06_crossing_on_plane, C06_slice_open_refines_spec, C06_sliced_open_refines_spec,
+  C06_crossing_row_is_point, C06_crossing_on_plane, C06_crossing_agrees_with_intersect_segment, C06_slice_open_refines_spec, C06_sliced_open_refines_spec,
   C06_sliced_closed_refines_spec, C06_result_finite_not_behind, C06_interior_vertices_identical,
-  C06_only_value_error, C06_unfixed_closed_all_front_refuted, C06_unfixed_closed_one_nonfront_refuted).
+  C06_only_value_error).
 Print Assumptions C06_all.
